@@ -104,6 +104,12 @@ func (u *Unit) evalCall(c *ast.CallExpr, env *Env) []Outcome {
 	if n, isNamed := types.Unalias(fv.Ty).(*types.Named); isNamed && n.Obj().Pkg() != nil && isOpaquePkg(n.Obj().Pkg().Path()) {
 		// a function value of a library function type (e.g. context.CancelFunc): a library call, not a user callback
 		u.D.Trust("calls of library function values (" + n.Obj().Pkg().Name() + "." + n.Obj().Name() + ") are opaque: arbitrary result, no effect on modelled state")
+		if n.Obj().Name() == "CancelFunc" && u.effectfulCallbacks() {
+			// specifications may say when the context was cancelled: _cancel_at = length of the event trace at the latest call
+			// of a context.CancelFunc (e.g. "the context outlives the decoding": _cancel_at == tr_len at exit)
+			env.alias["_cancel_at"] = u.trace(env).n
+			env.aliasTy["_cancel_at"] = types.Typ[types.Int]
+		}
 		var vals []Value
 		for i := 0; i < sig.Results().Len(); i++ {
 			rt := sig.Results().At(i).Type()
@@ -831,10 +837,16 @@ func (u *Unit) inline(c *ast.CallExpr, fi *FuncInfo, recv *Value, args []Value, 
 	if fi.Decl.Body == nil {
 		unsup("call of function without body %s", fi.Key)
 	}
+	// re-entrance through a closure (a helper that runs a function value which calls the helper again) is not recursion of
+	// unbounded depth: allow the same function twice on the inline stack; real recursion still runs into a limit
+	seenSelf := 0
 	for _, f := range u.curFn {
 		if f == fi {
-			unsup("recursive call of %s without contract", fi.Key)
+			seenSelf++
 		}
+	}
+	if seenSelf >= 2 {
+		unsup("recursive call of %s without contract", fi.Key)
 	}
 	if len(u.curFn) > 5 {
 		unsup("inline depth exceeded at %s", fi.Key)
@@ -1186,7 +1198,10 @@ func (u *Unit) callByContract(c *ast.CallExpr, fi *FuncInfo, blk *Block, recv *V
 			g.ty = &ghostArr{elem: v.Ty}
 		}
 		var entry Term
-		if obj := u.ghosts[name]; obj != nil && env.vars[obj].Sort == sort {
+		// a ghost that caller and callee both declare is threaded through the call - except in a self-recursive call, where the
+		// callee's ghost can be declared a different activation's variable (named <Func>_<ghost> afterwards like any witness)
+		// ("opt recursive-ghosts=local"; by default the ghost is threaded there too, e.g. a counter carried down the recursion)
+		if obj := u.ghosts[name]; obj != nil && env.vars[obj].Sort == sort && !(fi == u.FI && blk.Opts["recursive-ghosts"] == "local") {
 			g.obj = obj
 			entry = env.vars[obj]
 		} else {
